@@ -1152,7 +1152,7 @@ func (schema *Schema) visitJSON(settings *schemaValidationSettings, value any) (
 		}
 	}
 
-	if schema.IsEmpty() {
+	if schema.IsEmpty() && !schema.hasSubSchemas() {
 		switch value.(type) {
 		case nil:
 			return schema.visitJSONNull(settings)
@@ -1233,6 +1233,13 @@ func (schema *Schema) visitJSON(settings *schemaValidationSettings, value any) (
 		Reason:                fmt.Sprintf("unhandled value of type %T", value),
 		customizeMessageError: settings.customizeMessageError,
 	}
+}
+
+// hasSubSchemas tells whether the schema holds any sub-schema: an "empty" schema
+// with sub-schemas (e.g. {"not": {}}) still constrains values and must be visited.
+func (schema *Schema) hasSubSchemas() bool {
+	return schema.Not != nil || schema.Items != nil || schema.AdditionalProperties.Schema != nil ||
+		len(schema.Properties) != 0 || len(schema.OneOf) != 0 || len(schema.AnyOf) != 0 || len(schema.AllOf) != 0
 }
 
 func (schema *Schema) visitEnumOperation(settings *schemaValidationSettings, value any) (err error) {
